@@ -83,7 +83,7 @@ PROPS = {
     "C10": dict(
         gen=[dict(module="Gen_RData", cfg="Gen_RData.cfg", cfg_thorough="Gen_RData_thorough.cfg", out="rdata_cases.ndjson")],
         topic="rdata",
-        rules=["NoPanic", "EnvelopeErr", "ParseEqRef", "MustAccept", "BuildOk", "PlainCanonical", "SvcbSetters"],
+        rules=["NoPanic", "EnvelopeErr", "ParseEqRef", "MustAccept", "BuildOk", "PlainCanonical", "SvcbSetters", "CompDecodes"],
         shards=12,
     ),
     "C11": dict(
@@ -147,7 +147,8 @@ PROPS = {
     "C16": dict(
         gen=[dict(module="Gen_Packet", cfg="Gen_Packet.cfg", out="packet_cases.ndjson",
                   simulate=dict(quick="num=500", thorough="num=8000", depth=80)),
-             dict(module="Gen_Instance", cfg="Gen_Instance.cfg", out="instance_cases.ndjson")],
+             dict(module="Gen_Instance", cfg="Gen_Instance.cfg", out="instance_cases.ndjson"),
+             dict(module="Gen_RData", cfg="Gen_RData.cfg", cfg_thorough="Gen_RData_thorough.cfg", out="rdata_cases.ndjson")],
         topic="values",
         rules=["NoPanic", "OwnEqual", "EqHash"],
         shards=14,
